@@ -126,18 +126,27 @@ def ensure_makefile():
             raise RuntimeError('coq_makefile failed: ' + out)
 
 
+_LOCK = None
+
+
 def build(targets):
-    """Full .vo build of the given targets (and everything they depend on) under a lock."""
+    """Full .vo build of the given targets (and everything they depend on) under an exclusive lock; the
+    lock is then downgraded to a shared one, kept until the process ends, so that no other check rebuilds
+    a .vo file while this one evaluates its shards and re-checks its Props file."""
+    global _LOCK
     os.makedirs(kv.BUILD, exist_ok=True)
-    with open(os.path.join(kv.BUILD, '.lock'), 'w') as lock:
-        fcntl.flock(lock, fcntl.LOCK_EX)
+    _LOCK = open(os.path.join(kv.BUILD, '.lock'), 'w')
+    fcntl.flock(_LOCK, fcntl.LOCK_EX)
+    try:
         ok_tables, tables_out = regen_tables()
         ensure_makefile()
         rc, out, _ = kv.run(['make', '-k', f'-j{kv.NPROC}'] + targets, 2400, cwd=kv.COQ)
         status = {t: os.path.exists(os.path.join(kv.COQ, t)) and
                   os.path.getmtime(os.path.join(kv.COQ, t)) >= os.path.getmtime(os.path.join(kv.COQ, t[:-1]))
                   for t in targets}
-        return ok_tables, tables_out, rc, out, status
+    finally:
+        fcntl.flock(_LOCK, fcntl.LOCK_SH)
+    return ok_tables, tables_out, rc, out, status
 
 
 def theorem_names(props_file):
